@@ -60,8 +60,11 @@ contract(
         # (the recorded generations are those of the pre-state: the session's own new lists are not part of them)
         f"action is not None or not old({no_orig(H, P)}) or _x_hash_entry.action == 'original'",
         f"action is not None or old({no_orig(H, P)}) or not old({no_first(H, P, 'hash_format')}) or _x_hash_entry.action == 'new'",
+        # (one clause per conjunct: the compared entry IS first(H, p, f); the verdict follows the comparison with it)
         f"action is not None or old({no_orig(H, P)}) or old({no_first(H, P, 'hash_format')}) or"
-        f" (old({is_first(H, P, 'hash_format', '_x_existing_hash_entry')})"
+        f" old({is_first(H, P, 'hash_format', '_x_existing_hash_entry')})",
+        f"action is not None or old({no_orig(H, P)}) or old({no_first(H, P, 'hash_format')}) or"
+        f" (_x_existing_hash_entry is not None"
         f"  and _x_hash_entry.action == ('verified' if _x_existing_hash_entry.hash_string == hash_string else 'failed'))",
         "action is None or _x_hash_entry.action == action",
         "result == (_x_hash_entry.action != 'failed')",
